@@ -7,7 +7,7 @@
     WB.Abi.Check.check_dealloc / check_post_return evaluated by the check on the REAL streams; two genuine
     defects it found are repaired (known-findings.txt: fixed). *)
 From Coq Require Import List NArith Bool.
-From WB Require Import Wit.Ty Abi.Sig Abi.Instr Abi.Gen Abi.Check Abi.DeallocProofs Abi.GenDiscipline Abi.GenDeallocDiscipline Abi.SigProofs Abi.GenFlatDealloc.
+From WB Require Import Wit.Ty Canon.Spec Abi.Sig Abi.Instr Abi.Gen Abi.Check Abi.DeallocProofs Abi.GenDiscipline Abi.GenDeallocDiscipline Abi.SigProofs Abi.GenFlatDealloc Abi.GenPostReturn.
 Import ListNotations.
 
 Theorem C03_lists_cleanup_iff_heap : forall t, needs_deallocate DLists t = has_heap t.
@@ -69,6 +69,18 @@ Proof. exact deallocate_in_types_direct_ok. Qed.
 
 Print Assumptions C03_deallocate_in_types_indirect_never_panics.
 Print Assumptions C03_deallocate_in_types_direct_never_panics.
+(** post_return is safe exactly where the generator asks for it: whenever guest_export_needs_post_return holds for an
+    export with a well-formed result type, wit-parser's signature has a return pointer (the assert!(sig.retptr)
+    holds) and the post-return body completes with an empty operand stack.  (False before /repo bbdfee6 for
+    error-context results.) *)
+Theorem C03_post_return_never_panics_when_requested : forall fn t sig,
+  f_result fn = Some t -> Spec.valid_ty t = true ->
+  guest_export_needs_post_return fn = true ->
+  wasm_signature GuestExport fn = SigOk sig ->
+  s_retptr sig = true /\ ok_with (post_return fn) gst0 (fun _ s' => stack s' = []).
+Proof. exact post_return_ok. Qed.
+
+Print Assumptions C03_post_return_never_panics_when_requested.
 Print Assumptions C03_lists_cleanup_iff_heap.
 Print Assumptions C03_own_cleanup_iff.
 Print Assumptions C03_post_return_iff_heap.
